@@ -30,7 +30,7 @@ from .env import SimFS, SimStdin, SimStdout, FdTable
 from .forkserver import ForkServer
 
 PROP = "C17"
-WATCHDOG_S = 240
+WATCHDOG_S = 900
 OUT_PATH = "/simfs/out/qr.img"
 SVG_NS = "http://www.w3.org/2000/svg"
 
@@ -782,6 +782,11 @@ def generate(rng, tier, opts=None):
                                            or rng.random() < 0.3)])
     else:
         case["factory"] = rng.choice(UNKNOWN_FACTORIES)
+    if len(data) > 600 and case["factory"] in FACTORIES and \
+            FACTORIES[case["factory"]][0] != "png":
+        # large symbols only with the cheap raster factories: an SVG of a version-40
+        # symbol costs tens of seconds and would make run times depend on machine load
+        case["factory"] = rng.choice([None, "pil", "png", "pymaging"])
     r = rng.random()
     has_aliases = FACTORIES.get(case["factory"], (None, False))[1]
     if r < (0.5 if has_aliases else 0.12):
@@ -841,14 +846,14 @@ def execute(ctx, case, log):
     past one of the simulated seams, and this worker judges with real processes
     from then on (slower, same oracle)."""
     if ctx["mode"] == "sim":
-        res = ctx["fs"].run(run_case, case, timeout=200.0)
+        res = ctx["fs"].run(run_case, case, timeout=400.0)
         if res["violations"]:
             probe = case
             if not _real_eligible(case):
                 # the same invocation with plain delivery of stdin: does the violation
                 # depend on the simulated delivery at all?
                 probe = dict(case, chunks=[1 << 30], stdin_bufsize=8192, stdin_tty=False)
-                pres = ctx["fs"].run(run_case, probe, timeout=200.0)
+                pres = ctx["fs"].run(run_case, probe, timeout=400.0)
                 if not ({v["class"] for v in res["violations"]} &
                         {v["class"] for v in pres["violations"]}):
                     probe = None          # delivery-specific: only the simulation can judge
